@@ -138,3 +138,74 @@ func H_C16_program_scope_maps_readonly() {
 	vRaceEnd()
 	vAssertNoRace("program-scope-maps:no-write-by-a-run", "A", "B")
 }
+
+// ---------------------------------------------------------------------
+// H16.3: the template-literal instruction getTaggedTmplObject hands the Program's own raw/cooked slices
+// (of non-writable, non-configurable *valueProperty cells built by the compiler) to the arrays it
+// creates for a run. Nothing script code can then do to those arrays may write into Program-owned
+// memory: [[Set]], [[DefineOwnProperty]] with an arbitrary descriptor (including one that validates
+// against the frozen element), [[Delete]], length changes. Two runs A and B on identical copies.
+
+func vC16MakeTmpl() *getTaggedTmplObject {
+	mk := func(s string) Value {
+		return &valueProperty{enumerable: true, value: asciiString(s)}
+	}
+	return &getTaggedTmplObject{raw: []Value{mk("a"), mk("b")}, cooked: []Value{mk("a"), mk("b")}}
+}
+
+func vC16TmplRun(c *getTaggedTmplObject, useRaw bool, op, idx, vsel int, w, en, cf Flag) {
+	r := vRuntime()
+	m := &vm{r: r}
+	r.vm = m
+	m.maxCallStackSize = 1 << 30
+	m.stack = make(valueStack, 8)
+	m.prg = &Program{code: []instruction{c}}
+	c.exec(m)
+	target := m.stack[m.sp-1].(*Object)
+	if useRaw {
+		target = target.self.getStr("raw", nil).(*Object)
+	}
+	var val Value
+	switch vsel {
+	case 0:
+		val = asciiString("a") // the current value of element 0
+	case 1:
+		val = asciiString("zz")
+	}
+	i := valueInt(int64(idx))
+	_ = vCatch(func() {
+		switch op {
+		case 0:
+			if val != nil {
+				target.self.setOwnIdx(i, val, false)
+			}
+		case 1:
+			target.self.defineOwnPropertyIdx(i, PropertyDescriptor{Value: val, Writable: w, Enumerable: en, Configurable: cf}, false)
+		case 2:
+			target.self.deleteIdx(i, false)
+		case 3:
+			target.self.setOwnStr("length", i, false)
+		case 4:
+			_ = target.self.getIdx(i, nil)
+		default:
+			target.self.defineOwnPropertyStr("length", PropertyDescriptor{Value: i, Writable: w}, false)
+		}
+	})
+}
+
+func H_C16_program_template_readonly() {
+	useRaw := vChoice("target.raw", 2) == 1
+	op := vChoice("op", 6)
+	idx := vChoice("idx", 3)
+	vsel := vChoice("value", 3)
+	w, en, cf := vC04Flag("writable"), vC04Flag("enumerable"), vC04Flag("configurable")
+	a := vC16MakeTmpl()
+	vRaceBegin("A", a)
+	vC16TmplRun(a, useRaw, op, idx, vsel, w, en, cf)
+	vRaceEnd()
+	b := vC16MakeTmpl()
+	vRaceBegin("B", b)
+	vC16TmplRun(b, useRaw, op, idx, vsel, w, en, cf)
+	vRaceEnd()
+	vAssertNoRace("program-template-cells:no-write-by-a-run", "A", "B")
+}
